@@ -25,6 +25,27 @@ def replay(prop, path):
     elif 'toks' in case:
         from .checks import c11
         bad = c11.replay_case(chk, case)
+    elif 'fault' in case and 'text' in case:
+        # C17: the injected deck (and its control when recorded) through the entry point, judged by TraceFault.tla
+        import shutil
+        r = conv.convert(case['text'], case.get('opts', []))
+        ctl = conv.convert(case['control_text'], [o for o in case.get('control_opts', case.get('opts', []))]) \
+            if case.get('control_text') and case['fault']['class'] not in ('lattice_option', 'lattice_argument') else {'result': 'ok'}
+        rec = {'tid': 1, 'control': ctl['result'], 'result': r['result'], 'diag': bool(r['error'] and r['error']['diag']),
+               'expected': 'error'}
+        sd = tlc.scratch_dir('replay17')
+        try:
+            core.write_blocks(sd, [rec])
+            val = tlc.run('TraceFault', 'INIT Init\nNEXT Next\nCHECK_DEADLOCK FALSE\n', env={'TRACE_DIR': sd}, workers=4)
+        finally:
+            shutil.rmtree(sd, ignore_errors=True)
+        verdicts = [v for b in core.collect_blocks(val) for v in b['bad']]
+        print('replayed text:\n' + case['text'])
+        print('options:', case.get('opts', []))
+        print('fault:', json.dumps(case['fault']))
+        print('outcome:', r['result'], r['error'])
+        print('verdict from TraceFault.tla:', verdicts or 'ok')
+        bad = bool(verdicts)
     else:
         print('replay file has no replayable case; recorded signature:', rep['sig'])
         print(json.dumps(case, indent=1)[:4000])
